@@ -209,3 +209,25 @@ def install_registry(on=True):
     reg = VarRegistry() if on else None
     engine._verif_variables = reg
     return reg
+
+
+def new_engine():
+    """A fresh engine, constructed with CrossHair's tracer switched off: YP.__init__ touches
+    no symbolic value (it registers the builtins via inspect.signature, which is very slow
+    when traced); obligations about construction/registration itself do not use this."""
+    from crosshair.tracers import NoTracing
+    from yldprolog.engine import YP
+    with NoTracing():
+        return YP()
+
+
+def note(info, fmt, *args):
+    """Record why a path is a violation.  Only done on native replay: under CrossHair the
+    arguments are symbolic and formatting them would realise them for nothing."""
+    from crosshair.tracers import is_tracing
+    if is_tracing():
+        return
+    try:
+        info['reason'] = fmt % args
+    except Exception:
+        info['reason'] = fmt
